@@ -829,3 +829,69 @@ theorem exEdns_wf : EdnsWF exEdns := by
   · exact ⟨by decide, by decide, Or.inr (Or.inr (Or.inr ⟨_, _, _, _, rfl, rfl,
       by decide, by decide, by decide, by decide, by decide, by decide⟩))⟩
 end HickoryVerif.C02
+
+namespace HickoryVerif.C02
+open HickoryVerif HickoryVerif.Wire
+
+/-! ## the OPT TTL packing (`impl From<&Edns> for Record`, `Edns::from(&Record)`) -/
+
+/-- Packing an `Edns` into the OPT record and unpacking it again returns every field of the TTL
+word (`rcode_high`, `version`, `DO`, the 15 `Z` bits) and the payload size independently of all the
+others, for ALL values: no range hypothesis, a field wider than its Rust type (`u8`, `u8`, 15 bits)
+is reduced modulo that width exactly as the Rust type does. -/
+theorem optTtl_fields_independent (ed : Edns) :
+    ednsFrom (recordOfEdns ed) = .ok
+      { rcodeHigh := ed.rcodeHigh % 256, version := ed.version % 256, dnssecOk := ed.dnssecOk,
+        z := ed.z % 32768, maxPayload := max ed.maxPayload 512, options := ed.options } := by
+  have hr := Nat.mod_lt ed.rcodeHigh (show 0 < 256 by decide)
+  have hv := Nat.mod_lt ed.version (show 0 < 256 by decide)
+  have hz := Nat.mod_lt ed.z (show 0 < 32768 by decide)
+  cases hd : ed.dnssecOk
+  · simp only [ednsFrom, recordOfEdns, hd, ne_eq, not_true_eq_false, if_false, Bool.false_eq_true,
+      Outcome.ok.injEq, Edns.mk.injEq, and_true]
+    refine ⟨?_, ?_, ?_, ?_⟩
+    · omega
+    · omega
+    · simp; omega
+    · omega
+  · simp only [ednsFrom, recordOfEdns, hd, ne_eq, not_true_eq_false, if_false, if_true,
+      Outcome.ok.injEq, Edns.mk.injEq, and_true]
+    refine ⟨?_, ?_, ?_, ?_⟩
+    · omega
+    · omega
+    · simp; omega
+    · omega
+
+/-- the in-range reading: an `Edns` whose fields fit their Rust types comes back unchanged
+(the payload size is raised to 512, `Edns::set_max_payload`'s floor) -/
+theorem optTtl_fields_roundtrip (ed : Edns) (hr : ed.rcodeHigh < 256) (hv : ed.version < 256)
+    (hz : ed.z < 32768) (hp : 512 ≤ ed.maxPayload) :
+    ednsFrom (recordOfEdns ed) = .ok ed := by
+  rw [optTtl_fields_independent]
+  obtain ⟨a, b, c, d, p, o⟩ := ed
+  simp only at hr hv hz hp
+  simp only [Outcome.ok.injEq, Edns.mk.injEq, and_true, true_and]
+  refine ⟨?_, ?_, ?_, ?_⟩ <;> omega
+
+/-- `emit_message_parts` commits the extended RCODE with `set_rcode_high(response_code.high())`,
+which OVERWRITES whatever `rcode_high` the caller's `Edns` value carries: the encoding does not
+depend on that field at all. -/
+theorem emitMessage_ignores_edns_rcodeHigh (m : Message) (x : Nat) (e : Enc) :
+    emitMessage { m with edns := m.edns.map fun ed => { ed with rcodeHigh := x } } e =
+      emitMessage m e := by
+  obtain ⟨md, q, an, ns, ar, sig, edns⟩ := m
+  cases edns <;> simp [emitMessage, emitMessageParts]
+
+/-- the OPT record that `emit_message_parts` writes carries the MESSAGE's response code high bits
+(not the `Edns` value's), and with the four header bits the decoder's `merge_response_code`
+rebuilds exactly the message's response code (12 bits) -/
+theorem optRecord_rcode (md : Metadata) (ed ed' : Edns) (hrc : md.rcode < 4096)
+    (h : ednsFrom (recordOfEdns { ed with rcodeHigh := rcodeHigh md.rcode }) = .ok ed') :
+    ed'.rcodeHigh = md.rcode / 16 ∧
+    (mergeRcode { md with rcode := md.rcode % 16 } (some ed')).rcode = md.rcode := by
+  rw [optTtl_fields_independent] at h
+  simp only [Outcome.ok.injEq] at h
+  subst h
+  simp only [mergeRcode, rcodeHigh]
+  refine ⟨?_, ?_⟩ <;> omega
+end HickoryVerif.C02
